@@ -395,15 +395,22 @@ func VerifC42DecompressShort() {
 
 // C42 (stateful layer): the receiver's compression state stays identical to the
 // sender's and Decompress(Compress(x)) = x, as ONE INDUCTIVE STEP: encoder and
-// decoder start from EQUAL, otherwise arbitrary (symbolic) states - the three
-// LRU tables of the minimum size 16 with their MRU bits, the proposal window
-// (any head, any size 0..7, any entries), lastRnd - and process one arbitrary
-// stateless-compressed vote. Since the initial states (all zero) are equal,
-// equality after every step follows for every history.
+// decoder start from EQUAL, otherwise arbitrary (symbolic) states and process
+// one arbitrary stateless-compressed vote. Since the initial states (all zero)
+// are equal, equality after every step follows for every history.
 //
 // Code under test: (*StatefulEncoder).Compress, (*StatefulDecoder).Decompress,
 // statefulReader.*, lruTable.lookup/insert/fetch/..., propWindow.lookup/byRef/
 // insertNew, NewStatefulEncoder/Decoder.
+//
+// The state has four independent parts (three LRU tables, the proposal window,
+// lastRnd) handled by consecutive, separate sections of Compress/Decompress.
+// A path-enumerating engine multiplies their cases, so the step is checked in
+// two harnesses, each making some parts arbitrary and pinning the others:
+//   VerifC42StatefulStepTables: the three LRU tables (minimum size 16: 8 buckets
+//     of 2 slots, MRU bits) and lastRnd arbitrary, any vote contents; window empty.
+//   VerifC42StatefulStepWindow: the proposal window arbitrary (every head 0..6,
+//     every size 0..7, any entries), any proposal; tables freshly created.
 //
 // Preconditions (documented domain):
 //   - x is what the StatelessEncoder writes into a fresh buffer for a vote
@@ -461,27 +468,8 @@ func verifC42FillPk(label string, t *lruTable[pkSigPair]) {
 	vr.Fill(label+".mru", t.mru)
 }
 
-// arbitrary state in s, the same state in o
-func verifC42ArbitraryEqualStates(s, o *dynamicTableState) {
-	verifC42FillAddr(s.sndTable)
-	verifC42FillPk("pk.table", s.pkTable)
-	verifC42FillPk("pk2.table", s.pk2Table)
-	w := &s.proposalWindow
-	for i := range w.entries {
-		e := &w.entries[i]
-		vr.Fill("win.dig", e.dig[:])
-		vr.Fill("win.encdig", e.encdig[:])
-		vr.Fill("win.oprop", e.oprop[:])
-		vr.Fill("win.oper", e.operEnc[:])
-		e.operLen = vr.U8("win.operlen")
-		vr.Assume(e.operLen <= maxMsgpVaruintSize) // only ever set to the length of a parsed integer
-		e.mask = vr.U8("win.mask")
-	}
-	w.head = int(vr.U8("win.head"))
-	vr.Assume(w.head < proposalWindowSize)
-	w.size = vr.Choice("win.size", proposalWindowSize+1)
-	s.lastRnd = vr.U64("lastRnd")
-
+// o := s
+func verifC42CopyState(o, s *dynamicTableState) {
 	copy(o.sndTable.buckets, s.sndTable.buckets)
 	copy(o.sndTable.mru, s.sndTable.mru)
 	copy(o.pkTable.buckets, s.pkTable.buckets)
@@ -510,19 +498,16 @@ func verifC42SameState(a, b *dynamicTableState) bool {
 		verifC42SameLRU(a.pk2Table, b.pk2Table) && a.proposalWindow == b.proposalWindow && a.lastRnd == b.lastRnd
 }
 
-//verif:harness prop=C42 reach=done,prop-ref,prop-literal,snd-ref,snd-literal,pk-ref,pk-literal,pk2-ref,rnd-same,rnd-plus,rnd-minus,rnd-literal unwind=16 budget=220 thorough.budget=2400 thorough.paths=400000
-func VerifC42StatefulStep() {
-	enc, err1 := NewStatefulEncoder(16)
-	dec, err2 := NewStatefulDecoder(16)
-	vr.Assert("c42.stateful.min-table-size-ok", err1 == nil && err2 == nil)
-	verifC42ArbitraryEqualStates(&enc.dynamicTableState, &dec.dynamicTableState)
+// verifC42Bucket case-splits on the bucket a key hashes to (all buckets are
+// explored, one path each) so that the table is indexed concretely on each path.
+// It only partitions the inputs; it assumes nothing.
+func verifC42Bucket[K comparable](t *lruTable[K], h uint64) int {
+	b := t.hashToBucketIndex(h)
+	return len(make([]struct{}, int(b)))
+}
 
-	// the vote
-	forms := [4]int{vr.Choice("rndform", 5), 1, 0, 2}
-	v := &verifC42Vote{}
-	masks := []uint8{bitDig | bitEncDig | bitOprop | bitStep, 0, 63, bitPer | bitOper}
-	v.mask = masks[vr.Choice("mask", vr.Param(2, 4))]
-	verifC42FillVote(v, forms, true)
+// the step itself and everything asserted about it
+func verifC42Step(enc *StatefulEncoder, dec *StatefulDecoder, v *verifC42Vote) {
 	x := verifC42Packed(v)
 	orig := append([]byte(nil), x...)
 	rnd := verifC42UintValue(v.rnd)
@@ -561,6 +546,8 @@ func VerifC42StatefulStep() {
 	}
 	if h&hdr1Pk2Ref != 0 {
 		vr.Reach("pk2-ref")
+	} else {
+		vr.Reach("pk2-literal")
 	}
 	switch h & hdr1RndMask {
 	case hdr1RndDeltaSame:
@@ -573,4 +560,43 @@ func VerifC42StatefulStep() {
 		vr.Reach("rnd-literal")
 	}
 	vr.Reach("done")
+}
+
+func verifC42NewPair() (*StatefulEncoder, *StatefulDecoder) {
+	enc, err1 := NewStatefulEncoder(16)
+	dec, err2 := NewStatefulDecoder(16)
+	vr.Assert("c42.stateful.min-table-size-ok", err1 == nil && err2 == nil)
+	return enc, dec
+}
+
+// Arbitrary equal LRU tables and lastRnd; window empty. The bucket the sender
+// hashes to is enumerated (8 paths); the (p,p1s) and (p2,p2s) keys are taken
+// from the same bucket number of their own tables (the tables are separate
+// objects running the same generic code: each sees every bucket).
+//
+//verif:harness prop=C42 reach=done,prop-literal,snd-ref,snd-literal,pk-ref,pk-literal,pk2-ref,pk2-literal,rnd-same,rnd-plus,rnd-minus,rnd-literal unwind=16 budget=220 thorough.budget=2400 thorough.paths=400000
+func VerifC42StatefulStepTables() {
+	enc, dec := verifC42NewPair()
+	s := &enc.dynamicTableState
+	verifC42FillAddr(s.sndTable)
+	verifC42FillPk("pk.table", s.pkTable)
+	verifC42FillPk("pk2.table", s.pk2Table)
+	s.lastRnd = vr.U64("lastRnd")
+	verifC42CopyState(&dec.dynamicTableState, s)
+
+	v := &verifC42Vote{}
+	masks := []uint8{bitDig | bitEncDig | bitOprop | bitStep, 0, 63, bitPer | bitOper}
+	v.mask = masks[vr.Choice("mask", vr.Param(1, 4))]
+	verifC42FillVote(v, [4]int{vr.Choice("rndform", 5), 1, 0, 2}, true)
+
+	snd := addressValue(v.snd)
+	b := verifC42Bucket(s.sndTable, snd.hash())
+	pk := pkSigPair{pk: v.p, sig: v.p1s}
+	pk2 := pkSigPair{pk: v.p2, sig: v.p2s}
+	vr.Assume(int(s.pkTable.hashToBucketIndex(pk.hash())) == b)
+	vr.Assume(int(s.pk2Table.hashToBucketIndex(pk2.hash())) == b)
+	verifC42Bucket(s.pkTable, pk.hash())
+	verifC42Bucket(s.pk2Table, pk2.hash())
+
+	verifC42Step(enc, dec, v)
 }
